@@ -16,7 +16,8 @@ import time
 
 VERIF = os.path.dirname(os.path.dirname(os.path.abspath(__file__)))
 SEEDED = os.path.join(VERIF, "seeded")
-WT = "/tmp/verif-seeded-wt"
+SUFFIX = os.environ.get("VERIF_SEEDED_SUFFIX", "")  # a second instance can run side by side
+WT = "/tmp/verif-seeded-wt" + SUFFIX
 ALL = ["C%02d" % i for i in range(1, 21)]
 
 
@@ -37,8 +38,8 @@ def run_one(sid, tier, all_checks):
         if r.returncode != 0:
             return {"error": "patch does not apply: " + r.stdout[-500:]}
         checks = ALL if all_checks else meta.get("checks") or [meta["property"]]
-        env = dict(os.environ, VERIF_REPO=os.path.join(WT, "rolling-shutter"), VERIF_BUILD=os.path.join(VERIF, "build-seeded"),
-                   VERIF_EVIDENCE_DIR="/tmp/verif-seeded-evidence", VERIF_REPLAY_DIR="/tmp/verif-seeded-replays")
+        env = dict(os.environ, VERIF_REPO=os.path.join(WT, "rolling-shutter"), VERIF_BUILD=os.path.join(VERIF, "build-seeded" + SUFFIX),
+                   VERIF_EVIDENCE_DIR="/tmp/verif-seeded-evidence" + SUFFIX, VERIF_REPLAY_DIR="/tmp/verif-seeded-replays" + SUFFIX)
         res = {"checks": {}}
         for c in checks:
             t0 = time.time()
@@ -53,7 +54,7 @@ def run_one(sid, tier, all_checks):
         return res
     finally:
         sh(["git", "-C", "/repo", "worktree", "remove", "--force", WT])
-        sh(["rm", "-rf", WT, "/tmp/verif-seeded-evidence", "/tmp/verif-seeded-replays"])
+        sh(["rm", "-rf", WT, "/tmp/verif-seeded-evidence" + SUFFIX, "/tmp/verif-seeded-replays" + SUFFIX])
 
 
 def readme():
